@@ -22,8 +22,6 @@ PROP = 'C11'
 LEAN_MODULES = ['Femio.Props.C11']
 THEOREMS = []          # filled below (kept next to the explanation of each group)
 PARTIAL = [
-    'C11_polygonC_cof_partial: the polygon centroid kernel is proved to transform with cof(A); its translation invariance '
-    '(needs n·t cancelling against the vertex sum) is checked by the P-tie and the oracle only',
     'polyhedron centroid kernel: linearity proved (C11_polyC_linear); translation invariance for closed polyhedra is proved '
     'for the fan kernel only (C11_polyFan_translate), for the centroid kernel it is checked by the oracle',
     'C11_storage_perm_mixed is a theorem about Cfg.fixed; the current tree implements Cfg.upstream (finding C11-mixed-binding, '
@@ -794,7 +792,7 @@ THEOREMS += [
     'C11_quadGauss_cof',
     'C11_quadC_cof',
     'C11_polygonFan_cof',
-    'C11_polygonC_cof_partial',
+    'C11_polygonC_cof',
     'C11_radicand_orthogonal',
     'C11_radicand_scale',
     'C11_normal_rotates',
